@@ -432,6 +432,79 @@ func propC17(w *World, r *Report) {
 		}
 	}
 	r.Floor("skipisseek", 2)
+	// --- reseekresets: no reading state survives a re-seek
+	r.Rule("reseekresets: every field of the Parser that (*Parser).ReadBytes assigns (the window state, and any flag it keeps about the input, such as 'end reached') is also assigned on the branch of (*Parser).SeekPos that re-seeks the underlying reader: state recorded while reading one region must not decide reads in another")
+	if rb, sp := w.Func("(*parser.Parser).ReadBytes"), w.Func("(*parser.Parser).SeekPos"); rb == nil || sp == nil {
+		r.Fatal("ReadBytes or SeekPos does not resolve")
+	} else {
+		fieldsWritten := func(fn *ssa.Function, only func(b *ssa.BasicBlock) bool) map[string]token.Pos {
+			res := map[string]token.Pos{}
+			for _, b := range fn.Blocks {
+				if only != nil && !only(b) {
+					continue
+				}
+				for _, in := range b.Instrs {
+					if st, ok := in.(*ssa.Store); ok {
+						if fa, ok := st.Addr.(*ssa.FieldAddr); ok && fa.X == ssa.Value(fn.Params[0]) {
+							if _, isAlloc := st.Val.(*ssa.MakeSlice); isAlloc {
+								continue // the buffer itself is allocated once; its size says nothing about the input
+							}
+							res[fieldName(fa)] = st.Pos()
+						}
+					}
+				}
+			}
+			return res
+		}
+		rbW := fieldsWritten(rb, nil)
+		// the re-seek branch: blocks dominated by the block that calls Seek on the underlying reader
+		var seekBlk *ssa.BasicBlock
+		for _, b := range sp.Blocks {
+			for _, in := range b.Instrs {
+				if c, ok := in.(*ssa.Call); ok && c.Call.IsInvoke() && c.Call.Method.Name() == "Seek" {
+					seekBlk = b
+				}
+			}
+		}
+		key := r.MkKey("reseekresets", fnName(sp), "fields reset by the re-seek")
+		if seekBlk == nil {
+			r.Fail("reseekresets", key, w.Pos(sp.Pos()), "SeekPos has no branch that re-seeks the underlying reader", nil)
+		} else {
+			spW := fieldsWritten(sp, func(b *ssa.BasicBlock) bool { return seekBlk.Dominates(b) })
+			// only state that decides something: a field some method of the
+			// Parser branches on (a nil test of a lazily allocated buffer is
+			// not a decision about the input)
+			decides := map[string]bool{}
+			for _, m := range methods {
+				for _, b := range m.Blocks {
+					ifi, ok := b.Instrs[len(b.Instrs)-1].(*ssa.If)
+					if !ok {
+						continue
+					}
+					if bo, ok := ifi.Cond.(*ssa.BinOp); ok && (isNilConst(bo.X) || isNilConst(bo.Y)) {
+						continue
+					}
+					for v := range backSlice(ifi.Cond) {
+						if fa, ok := v.(*ssa.FieldAddr); ok && len(m.Params) > 0 && fa.X == ssa.Value(m.Params[0]) {
+							decides[fieldName(fa)] = true
+						}
+					}
+				}
+			}
+			var missing []string
+			for f := range rbW {
+				if _, ok := spW[f]; !ok && decides[f] {
+					missing = append(missing, f)
+				}
+			}
+			sort.Strings(missing)
+			if len(missing) > 0 {
+				r.Fail("reseekresets", key, w.Pos(rbW[missing[0]]), fmt.Sprintf("ReadBytes assigns the Parser field(s) %s, which the re-seek branch of SeekPos does not reset: what a read recorded before the seek (for instance that the end of the input was reached) still holds after moving elsewhere", strings.Join(missing, ", ")), nil)
+			} else {
+				r.OK("reseekresets", key, w.Pos(seekBlk.Instrs[0].Pos()), fmt.Sprintf("all %d fields ReadBytes assigns are reset", len(rbW)))
+			}
+		}
+	}
 	r.Floor("whomaywrite", 20)
 	r.Floor("errnodata", 5)
 	r.Floor("viareadbytes", 5)
